@@ -20,6 +20,8 @@ struct Out {
     line: u64,
     next_id: u64,
     runs: u64,
+    /// ids of cases that hung in an earlier attempt (wall-clock watchdog of the driver): not executed again
+    skip: Vec<u64>,
 }
 
 struct Done {
@@ -41,7 +43,9 @@ impl Out {
         self.runs += 1;
         case.id = self.next_id;
         let instr = Instr::new(&case);
-        let out = execute(&case, &instr);
+        // announce the case before running it, so that the driver's watchdog can name a hanging case
+        eprintln!("START {} {}", case.id, case_json(&case));
+        let out = if self.skip.contains(&case.id) { Outcome::Abort("watchdog".into(), String::new()) } else { execute(&case, &instr) };
         let lines = trace(&case, &instr, &out);
         let call_line = self.line + 1;
         for l in &lines {
@@ -611,7 +615,8 @@ fn main() {
     let fam = args[1].as_str();
     let quick = args[2] == "quick";
     let seed: u64 = args[3].parse().unwrap_or(1);
-    let mut o = Out { w: BufWriter::new(std::fs::File::create(&args[4]).expect("out file")), line: 0, next_id: 0, runs: 0 };
+    let skip: Vec<u64> = std::env::var("VERIF_SKIP").ok().map(|v| v.split(',').filter_map(|x| x.parse().ok()).collect()).unwrap_or_default();
+    let mut o = Out { w: BufWriter::new(std::fs::File::create(&args[4]).expect("out file")), line: 0, next_id: 0, runs: 0, skip };
     let mut rng = Rng::new(seed ^ (fam.len() as u64 * 7919) ^ fam.bytes().fold(0u64, |a, b| a.wrapping_mul(131).wrapping_add(b as u64)));
     if args.len() >= 7 && args[5] == "--only" {
         let txt = std::fs::read_to_string(&args[6]).expect("case file");
